@@ -251,6 +251,15 @@ Theorem txt2_order su sv (pts : list (list R)) u v : (u < su)%nat -> (v < sv)%na
   nth v (nth u (export_txt2 pr su sv pts) []) [] = map pr (nth (idx2 sv u v) pts []).
 Proof. intros Hu Hv. unfold export_txt2. rewrite nth_map_seq by exact Hu. rewrite nth_map_seq by exact Hv. reflexivity. Qed.
 
+(* without any hypothesis on the codec: every number comes back as parse (print x), nothing else changes *)
+Theorem txt_csv_any_codec (pts : list (list R)) :
+  import_txt1 pa (export_txt1 pr pts) = map (map (fun x => pa (pr x))) pts /\
+  import_csv pa (export_csv pr pts) = map (map (fun x => pa (pr x))) pts.
+Proof.
+  unfold import_txt1, export_txt1, import_csv, export_csv. cbn [snd]. rewrite !map_map.
+  split; apply map_ext; intros; apply map_map.
+Qed.
+
 Theorem csv_roundtrip (pts : list (list R)) :
   import_csv pa (export_csv pr pts) = pts /\ fst (export_csv pr pts) = seq 1 (length (hd [] pts)).
 Proof. split; [apply codec_pts|reflexivity]. Qed.
